@@ -108,3 +108,69 @@ package bech32
 //@   loop 2 invariant int(fromBits) * $i1 + int(fromBits) - int(remFromBits) == int(toBits) * len(regrouped) + int(filledBits)
 //@   loop 2 invariant u16(nextByte) < (u16(1) << u16(filledBits)) && forall k :: 0 <= k && k < len(regrouped) ==> u16(regrouped[k]) < (u16(1) << u16(toBits))
 //@   loop 2 decreases int(remFromBits)
+
+//@ lemmafunc bech32.lemmaChecksumVerifies
+//@   requires forall k :: 0 <= k && k < len(data) ==> data[k] < 32
+//@   opaque bech32.step, bech32.stepb
+//@   bind after bech32Checksum#1: $p = data
+//@   bind after bech32Checksum#1: $S = bech32.foldc(1, hrp, len(hrp), $p, (2 * len(hrp) + 1 + len($p)))
+//@   bind after bech32Checksum#1: $W = bech32.z6b($S) ^ 1
+//@   assert after bech32Checksum#1: lemma b32_z6_b($S)
+//@   assert after bech32Checksum#1: bech32.cksum(hrp, len(hrp), $p, len($p)) == $W
+//@   assert after bech32Checksum#1 as P0: len($p) >= 0 && len(hrp) >= 0 && forall k :: 0 <= k && k < len($p) ==> $p[k] < 32
+//@   assert after bech32Checksum#1 from P0 expand bech32.at, bech32.hx: 0 <= bech32.at(hrp, len(hrp), $p, (2 * len(hrp) + 1 + len($p)) - 1) && bech32.at(hrp, len(hrp), $p, (2 * len(hrp) + 1 + len($p)) - 1) < 32
+//@   assert after bech32Checksum#1: lemma b32_step_range(bech32.foldc(1, hrp, len(hrp), $p, (2 * len(hrp) + 1 + len($p)) - 1), bech32.at(hrp, len(hrp), $p, (2 * len(hrp) + 1 + len($p)) - 1))
+//@   assert after bech32Checksum#1: $S >= 0 && $S < 1073741824
+//@   assert after bech32Checksum#1: lemma b32_dgb_small($W, 0)
+//@   assert after bech32Checksum#1: $ret[0] == u8(bech32.dgb($W, 0))
+//@   assert after bech32Checksum#1: lemma b32_dgb_small($W, 1)
+//@   assert after bech32Checksum#1: $ret[1] == u8(bech32.dgb($W, 1))
+//@   assert after bech32Checksum#1: lemma b32_dgb_small($W, 2)
+//@   assert after bech32Checksum#1: $ret[2] == u8(bech32.dgb($W, 2))
+//@   assert after bech32Checksum#1: lemma b32_dgb_small($W, 3)
+//@   assert after bech32Checksum#1: $ret[3] == u8(bech32.dgb($W, 3))
+//@   assert after bech32Checksum#1: lemma b32_dgb_small($W, 4)
+//@   assert after bech32Checksum#1: $ret[4] == u8(bech32.dgb($W, 4))
+//@   assert after bech32Checksum#1: lemma b32_dgb_small($W, 5)
+//@   assert after bech32Checksum#1: $ret[5] == u8(bech32.dgb($W, 5))
+//@   bind after append#2: $q = $ret
+//@   assert after append#2 as C1: len($q) == len($p) + 6 && len($p) >= 0 && len(hrp) >= 0 && (forall k :: 0 <= k && k < len($p) ==> $q[k] == $p[k])
+//@   assert after append#2: $q[len($p) + 0] == u8(bech32.dgb($W, 0))
+//@   assert after append#2: $q[len($p) + 1] == u8(bech32.dgb($W, 1))
+//@   assert after append#2: $q[len($p) + 2] == u8(bech32.dgb($W, 2))
+//@   assert after append#2: $q[len($p) + 3] == u8(bech32.dgb($W, 3))
+//@   assert after append#2: $q[len($p) + 4] == u8(bech32.dgb($W, 4))
+//@   assert after append#2: $q[len($p) + 5] == u8(bech32.dgb($W, 5))
+//@   assert after append#2 from C1 expand bech32.at: forall k :: 0 <= k && k < (2 * len(hrp) + 1 + len($p)) ==> bech32.at(hrp, len(hrp), $q, k) == bech32.at(hrp, len(hrp), $p, k)
+//@   assert after append#2: lemma b32_foldc_ext(1, hrp, len(hrp), $q, (2 * len(hrp) + 1 + len($p)), $p, (2 * len(hrp) + 1 + len($p)))
+//@   assert after append#2: bech32.foldc(1, hrp, len(hrp), $q, (2 * len(hrp) + 1 + len($p))) == $S
+//@   assert after append#2: lemma b32_foldc_unfold6(1, hrp, len(hrp), $q, (2 * len(hrp) + 1 + len($p)))
+//@   bind after append#2: $T0 = $S
+//@   bind after append#2: $T1 = bech32.stepb($T0, bech32.dgb($W, 0))
+//@   assert after append#2: bech32.at(hrp, len(hrp), $q, (2 * len(hrp) + 1 + len($p)) + 0) == int(bech32.dgb($W, 0))
+//@   assert after append#2: lemma b32_step_b($T0, bech32.dgb($W, 0))
+//@   assert after append#2: bech32.step($T0, bech32.at(hrp, len(hrp), $q, (2 * len(hrp) + 1 + len($p)) + 0)) == $T1
+//@   bind after append#2: $T2 = bech32.stepb($T1, bech32.dgb($W, 1))
+//@   assert after append#2: bech32.at(hrp, len(hrp), $q, (2 * len(hrp) + 1 + len($p)) + 1) == int(bech32.dgb($W, 1))
+//@   assert after append#2: lemma b32_step_b($T1, bech32.dgb($W, 1))
+//@   assert after append#2: bech32.step($T1, bech32.at(hrp, len(hrp), $q, (2 * len(hrp) + 1 + len($p)) + 1)) == $T2
+//@   bind after append#2: $T3 = bech32.stepb($T2, bech32.dgb($W, 2))
+//@   assert after append#2: bech32.at(hrp, len(hrp), $q, (2 * len(hrp) + 1 + len($p)) + 2) == int(bech32.dgb($W, 2))
+//@   assert after append#2: lemma b32_step_b($T2, bech32.dgb($W, 2))
+//@   assert after append#2: bech32.step($T2, bech32.at(hrp, len(hrp), $q, (2 * len(hrp) + 1 + len($p)) + 2)) == $T3
+//@   bind after append#2: $T4 = bech32.stepb($T3, bech32.dgb($W, 3))
+//@   assert after append#2: bech32.at(hrp, len(hrp), $q, (2 * len(hrp) + 1 + len($p)) + 3) == int(bech32.dgb($W, 3))
+//@   assert after append#2: lemma b32_step_b($T3, bech32.dgb($W, 3))
+//@   assert after append#2: bech32.step($T3, bech32.at(hrp, len(hrp), $q, (2 * len(hrp) + 1 + len($p)) + 3)) == $T4
+//@   bind after append#2: $T5 = bech32.stepb($T4, bech32.dgb($W, 4))
+//@   assert after append#2: bech32.at(hrp, len(hrp), $q, (2 * len(hrp) + 1 + len($p)) + 4) == int(bech32.dgb($W, 4))
+//@   assert after append#2: lemma b32_step_b($T4, bech32.dgb($W, 4))
+//@   assert after append#2: bech32.step($T4, bech32.at(hrp, len(hrp), $q, (2 * len(hrp) + 1 + len($p)) + 4)) == $T5
+//@   bind after append#2: $T6 = bech32.stepb($T5, bech32.dgb($W, 5))
+//@   assert after append#2: bech32.at(hrp, len(hrp), $q, (2 * len(hrp) + 1 + len($p)) + 5) == int(bech32.dgb($W, 5))
+//@   assert after append#2: lemma b32_step_b($T5, bech32.dgb($W, 5))
+//@   assert after append#2: bech32.step($T5, bech32.at(hrp, len(hrp), $q, (2 * len(hrp) + 1 + len($p)) + 5)) == $T6
+//@   assert after append#2: lemma b32_selfcheck_b($S)
+//@   assert after append#2: $T6 == 1
+//@   assert after append#2: bech32.foldc(1, hrp, len(hrp), $q, (2 * len(hrp) + 1 + len($p)) + 6) == 1
+//@   assert after bech32VerifyChecksum#1: $ret
